@@ -155,7 +155,7 @@ def make_history(r, nsteps=None):
             op = {'op': 'assemble', 'prog': i, 'compress': r.random() < 0.5, 'inc': r.choice(('shared', 'shared', 'none', 'own')),
                   'dicts': dicts, 'inject': draw_inject(r)}
             if dicts == 'seeded':
-                op['seed_consts'] = {r.choice(K): r.randint(0, 2000)} if r.random() < 0.7 else {'SEEDED': 5}
+                op['seed_consts'] = {k: r.randint(0, 2000) for k in r.sample(K, r.randint(1, 3))} if r.random() < 0.7 else {'SEEDED': 5, 'ALSO': 6}
                 if r.random() < 0.3:
                     op['seed_labels'] = {r.choice(L): r.randrange(0, 64, 4)}
             ops.append(op)
@@ -409,6 +409,10 @@ def run_history(scen):
 def run_single(files, dirs, cwd, call, inj):
     """The pristine-process reference for one step."""
     asmsim.init()
+    for k in ('constants', 'labels'):
+        if call.get(k):
+            # an equal dictionary is the same input whatever its insertion order
+            call = dict(call, **{k: dict(reversed(list(call[k].items())))})
     fs = asmsim.make_fs(files, dirs, cwd=cwd, faults=copy.deepcopy(inj['faults']) if inj and inj['kind'] == 'fs' else [])
     out = asmsim.run_api(fs, call, core.EventLog(0), inject=inj if inj and inj['kind'] == 'line' else None)
     rec = norm_outcome(out)
